@@ -15,6 +15,8 @@ ASSUMPTIONS_COMMON = [
 
 PROPS = {}
 HARNESSES = []
+# a Verus clause tagged with the key also counts for the listed properties (see runner.expand_tags)
+IMPLIES = {'C03': ['C04', 'C05', 'C06']}
 
 
 def prop(pid, **kw):
@@ -130,7 +132,43 @@ PAIRS = {
     'LaxSlicedPacketCursor::parse_from_ip': ['h_packet::c05_lax_vs_strict_ip_v4_udp', 'h_packet::c05_lax_vs_strict_ip_v4_auth', 'h_packet::c05_lax_vs_strict_ip_v6_udp', 'h_packet::c05_lax_vs_strict_ip_any_short'],
     'LaxSlicedPacket::from_ip': ['h_packet::c05_lax_vs_strict_ip_v4_udp', 'h_packet::c05_lax_vs_strict_ip_v4_auth', 'h_packet::c05_lax_vs_strict_ip_v6_udp', 'h_packet::c05_lax_vs_strict_ip_any_short'],
     'LinuxSllHeaderSlice::sender_address': ['h_packet::c01_touch_linux_sll_slice'],
+    # second session: every function whose proof carries statement anchors has a paired harness, so that a reshaped body ends in a
+    # counterexample search instead of UNDECIDED
+    'u64_16bit_word::add_2bytes': ['h_builder::c09_k_helpers_add64_2', 'h_builder::c09_k_helpers_fixed_adders'],
+    'u64_16bit_word::add_4bytes': ['h_builder::c09_k_helpers_add64_eac', 'h_builder::c09_k_helpers_fixed_adders'],
+    'u64_16bit_word::add_8bytes': ['h_builder::c09_k_helpers_add64_eac', 'h_builder::c09_k_helpers_fixed_adders'],
+    'u64_16bit_word::add_slice': ['h_builder::c09_k_helpers_split_u64', 'h_builder::c09_k_helpers_split'],
+    'u64_16bit_word::ones_complement': ['h_builder::c09_k_helpers_conv64'],
+    'u32_16bit_word::add_2bytes': ['h_builder::c09_k_helpers_add32_state'],
+    'u32_16bit_word::add_4bytes': ['h_builder::c09_k_helpers_add32_state'],
+    'u32_16bit_word::add_slice': ['h_builder::c09_k_helpers_split_u32'],
+    'u32_16bit_word::ones_complement': ['h_builder::c09_k_helpers_add32_state'],
+    'IpHeaders::from_slice': ['h_pairs::c04_slim_ip_v4_udp', 'h_pairs::c04_slim_ip_v6_udp', 'h_packet::c06_ip_variants_other_version'],
+    'IpHeaders::from_slice_lax': ['h_pairs::c04_lax_headers_vs_sliced_ip_v4_udp', 'h_pairs::c04_lax_headers_vs_sliced_ip_v6_udp'],
+    'IpHeaders::from_ipv4_slice_lax': ['h_pairs::c04_lax_headers_vs_sliced_ip_v4_udp'],
+    'IpHeaders::from_ipv6_slice': ['h_pairs::c04_slim_ip_v6_udp'],
+    'IpHeaders::from_ipv6_slice_lax': ['h_pairs::c04_lax_headers_vs_sliced_ip_v6_udp', 'h_pairs::p_ext_struct_walk_lax'],
+    'Ipv6Extensions::from_slice': ['h_pairs::c04_slim_ip_v6_udp', 'h_pairs::p_ext_struct_walk_lax'],
+    'PacketHeaders::from_ip_slice': ['h_pairs::c04_slim_ip_v4_udp', 'h_pairs::c04_slim_ip_v6_udp'],
+    'Ipv4Extensions::from_slice': ['h_pairs::p_ipv4_boundary_headers'],
+    'Ipv4ExtensionsSlice::from_slice': ['h_pairs::p_ipv4_boundary_strict'],
+    'Ipv4ExtensionsSlice::to_header': ['h_pairs::p_ipv4_boundary_headers'],
+    'Ipv6Slice::from_slice_lax': ['h_packet::c05_lax_vs_strict_ip_v6_udp', 'h_pairs::p_ext_walk_lax'],
+    'LaxIpv6Slice::from_slice': ['h_packet::c05_lax_vs_strict_ip_v6_udp', 'h_pairs::p_ext_walk_lax'],
+    'LaxIpSlice::from_slice': ['h_packet::c05_lax_vs_strict_ip_v6_udp', 'h_packet::c05_lax_vs_strict_ip_v4_udp', 'h_packet::c06_ip_variants_v4'],
+    'LaxIpv4Slice::from_slice': ['h_packet::c05_lax_vs_strict_ip_v4_udp', 'h_packet::c06_ip_variants_v4'],
+    'LinuxSllSlice::from_slice': ['h_packet::c01_touch_linux_sll_slice'],
+    'SlicedPacketCursor::slice_arp': ['h_packet::c01_touch_arp_packet_slice'],
+    'SlicedPacketCursor::slice_ether_type': ['h_packet::c06_doors_ether_type_vs_ip_v4_udp', 'h_packet::c06_doors_ether_type_vs_ip_v6_udp', 'h_pairs::c07_offsets_from_ethernet_v4'],
+    'SlicedPacketCursor::slice_ethernet2': ['h_pairs::c07_offsets_from_ethernet_v4'],
+    'SlicedPacketCursor::slice_linux_sll': ['h_packet::c01_touch_linux_sll_slice'],
+    'TcpHeaderSlice::from_slice': ['h_io::c06_read_vs_slice_tcp', 'h_roundtrip::c08_br_tcp'],
+    'Icmpv4Slice::header_len': ['h_ctrl::c17_icmpv4_type'],
+    'Icmpv4Slice::payload': ['h_ctrl::c17_icmpv4_type'],
+    'Ipv4Options::as_slice': ['h_roundtrip::c08_rt_ipv4'],
+    'TcpOptions::as_slice': ['h_tcpopt::c13_tcpopt_try_from_slice'],
     'Ipv4Header::calc_header_checksum': ['h_builder::c09_k_proto_ipv4_header'],
+    'TcpSlice::from_slice': ['h_pairs::c04_slim_ip_v4_tcp', 'h_pairs::c07_offsets_from_ip_v4'],
     'UdpSlice::from_slice_lax': ['h_packet::c01_touch_udp_slice', 'h_packet::c05_lax_vs_strict_ip_v4_udp'],
     'UdpHeader::calc_checksum_post_ip': ['h_builder::c09_k_proto_udp_ipv4', 'h_builder::c09_k_proto_udp_ipv6'],
     'UdpHeader::calc_checksum_ipv4_internal': ['h_builder::c09_k_proto_udp_ipv4'],
@@ -324,6 +362,8 @@ harness('h_io::c16_write_fail_ipv6_raw_ext', ['C16'], 'bounded (payload <= 14 B)
 harness('h_io::c06_read_vs_slice_arp', ['C06'], 'bounded (addr sizes <= 4)', 'ArpPacket read vs from_slice', tier='thorough', bound='addr sizes <= 4', timeout=1305)
 harness('h_io::c16_read_fail_arp', ['C16'], 'bounded (addr sizes <= 4)', 'ArpPacket::read reader fault', tier='thorough', bound='addr sizes <= 4', timeout=955)
 harness('h_io::c16_write_fail_ipv6_exts', ['C16'], 'bounded (one concrete chain: hop-by-hop(6 B payload)+fragment)', 'Ipv6Extensions::write writer fault at k in 0..=16, prefix', tier='thorough', bound='one concrete chain: hop-by-hop(6 B payload)+fragment', timeout=835, heavy=True)
+harness('h_io::c16_skip_header_extension', ['C16', 'C06'], 'complete for one header (loop-free; every header kind and length byte, data 0..=24 B, fault anywhere, EOF or device fault)', 'Ipv6Header::skip_header_extension: Ok(next header) with exactly the header consumed iff the header is complete, otherwise the reader fault - never success; non-extension numbers untouched', tier='quick', bound='data <= 24 B', timeout=300)
+harness('h_io::c16_skip_all_header_extensions', ['C16', 'C06'], 'bounded (data <= 32 B: <= 4 headers, unwind 6)', 'Ipv6Header::skip_all_header_extensions == reference walk (RFC 8200 / 6564 / 4302 lengths): first non-extension number, exactly the chain consumed, or the reader fault', tier='quick', bound='data <= 32 B', timeout=300)
 harness('h_io::c16_write_fail_ip_headers', ['C16'], 'bounded (one concrete IPv4 header, no exts)', 'IpHeaders::write writer fault at k in 0..=20', tier='quick', bound='one concrete IPv4 header, no exts', timeout=300)
 harness('h_io::c16_slice_space_builder_udp', ['C16', 'C10'], 'bounded (eth+ipv4+udp concrete, payload len 0..=4)', 'PacketBuilder::write_to_slice: Space(real len), canaries, == io::Write output', tier='quick', bound='eth+ipv4+udp concrete, payload len 0..=4', timeout=1180, heavy=True)
 harness('h_io::c16_write_fail_builder_udp', ['C16', 'C10'], 'bounded (eth+ipv4+udp concrete, payload len 0..=4)', 'PacketBuilder::write writer fault at k: BuildWriteError::Io, prefix over 4 pieces', tier='quick', bound='eth+ipv4+udp concrete, payload len 0..=4', timeout=1665, heavy=True)
